@@ -481,6 +481,209 @@ def _work_hist(item):
 
 
 # ----------------------------------------------------------------------------------------------
+# python-job wirings: a resource handed to PythonJob.call in every argument SHAPE
+# ----------------------------------------------------------------------------------------------
+# node types 'B' (bash job) / 'P' (python job).  Edge u -> v ("v depends on u") realisations:
+#   ('dep',)              v.depends_on(u)
+#   ('res',)              bash v reads u's file in its command (python u: its as_str file)
+#   ('py', form, shape)   python v receives a resource of u as an argument of call():
+#        form  (bash u)   'file' j.ofile | 'member' j.og.a | 'group' j.og
+#              (python u) 'res' PythonResult | 'str' | 'json' | 'repr'  (the converted files)
+#        shape 'pos' | 'kw' | 'list' | 'tuple' | 'dictval' | 'list_in_dict' | 'dict_in_list' | 'tuple_in_dict' | 'kw_dict'
+# All incoming resources of a python job go into ONE call (several resources mixed in one call).
+
+PY_SHAPES = ('pos', 'kw', 'list', 'tuple', 'dictval', 'list_in_dict', 'dict_in_list', 'tuple_in_dict', 'kw_dict')
+B_FORMS = ('file', 'member', 'group')
+P_FORMS = ('res', 'str', 'json', 'repr')
+
+
+def _pyfn(*args, **kwargs):
+    return len(args) + len(kwargs)
+
+
+def _shape_arg(shape, r, args, kwargs, tag):
+    if shape == 'pos':
+        args.append(r)
+    elif shape == 'kw':
+        kwargs[f'k{tag}'] = r
+    elif shape == 'list':
+        args.append([1, r])
+    elif shape == 'tuple':
+        args.append((r, 'x'))
+    elif shape == 'dictval':
+        args.append({'a': 1, 'k': r})
+    elif shape == 'list_in_dict':
+        args.append({'k': [r]})
+    elif shape == 'dict_in_list':
+        args.append([{'k': r}])
+    elif shape == 'tuple_in_dict':
+        args.append({'k': (0, r)})
+    elif shape == 'kw_dict':
+        kwargs[f'k{tag}'] = {'k': r}
+    else:
+        raise HarnessError(shape)
+
+
+def run_py_case(n, types, edges, always_run, fail):
+    """Like run_case, with python jobs.  edges: (u, v, real).  Returns (violations, info)."""
+    env = _env()
+    hb, rec = env['hb'], env['rec']
+    _reset_counters(env)
+    rec.reset(fail)
+    b = hb.Batch(backend=env['backend'], name='c17p')
+    plain = [(u, v, r[0]) for u, v, r in edges]
+    order = topo_order(n, plain)
+    if order is None:
+        raise HarnessError('python wirings are enumerated over acyclic pipelines')
+    jobs = []
+    for k in range(n):
+        j = b.new_job(name=f'j{k}') if types[k] == 'B' else b.new_python_job(name=f'j{k}')
+        j.__dict__['_vf_rank'] = k
+        if always_run[k]:
+            j.always_run()
+        jobs.append(j)
+    results = {}
+
+    def resource(u, form):
+        j = jobs[u]
+        if types[u] == 'B':
+            return {'file': j.ofile, 'member': j.og.a, 'group': j.og}[form]
+        r = results[u]
+        return {'res': r, 'str': r.as_str(), 'json': r.as_json(), 'repr': r.as_repr()}[form] if form != 'res' else r
+
+    # statements are issued producer-first (a resource must be defined before it is used); job CREATION order is the labels
+    for v in order:
+        j = jobs[v]
+        inc = [(u, r) for u, vv, r in edges if vv == v]
+        for u, r in inc:
+            if r[0] == 'dep':
+                j.depends_on(jobs[u])
+        if types[v] == 'B':
+            j.declare_resource_group(og={'a': '{root}.a', 'b': '{root}.b'})
+            j.command(f'echo MARK{v}X > {j.ofile}; echo > {j.og}')
+            for u, r in inc:
+                if r[0] == 'res':
+                    j.command(f'cat {resource(u, "file" if types[u] == "B" else "str")}')
+                elif r[0] == 'py':
+                    raise HarnessError('python-argument edge into a bash job')
+        else:
+            args, kwargs = [f'MARK{v}X'], {}
+            for u, r in inc:
+                if r[0] == 'py':
+                    _shape_arg(r[2], resource(u, r[1]), args, kwargs, u)
+                elif r[0] == 'res':
+                    raise HarnessError('command edge into a python job')
+            results[v] = j.call(_pyfn, *args, **kwargs)
+
+    raised = _run_batch(env, b)
+    calls = list(rec.calls)
+    viol = []
+    info = {'calls': calls, 'raised': type(raised).__name__ if raised else None}
+    if isinstance(raised, env['BatchException']):
+        viol.append(('acyclic-pipeline-rejected', f'acyclic pipeline rejected: {raised}'))
+        return viol, info
+    ids = [j._job_id for j in jobs]
+    info['ids'] = ids
+    if any(i is None for i in ids) or len(set(ids)) != n:
+        viol.append(('job-ids-not-distinct', f'job ids {ids}'))
+    else:
+        for u, v, r in edges:
+            if not ids[u] < ids[v]:
+                viol.append(('job-id-not-after-dependency',
+                             f'job {v} (id {ids[v]}) depends on job {u} (id {ids[u]}) via {r}'))
+                break
+    if len(set(calls)) != len(calls):
+        viol.append(('job-executed-twice', f'execution record {calls}'))
+    pos = {k: i for i, k in enumerate(calls)}
+    for u, v, r in edges:
+        if u in pos and v in pos and not pos[u] < pos[v]:
+            viol.append(('executed-before-dependency', f'job {v} executed before its dependency {u} ({r}); record {calls}'))
+            break
+    exp = expected_status(n, plain, always_run, fail)
+    info['expected'] = exp
+    exp_run = {v for v in range(n) if exp[v] != 'skipped'}
+    got_run = set(calls)
+    if got_run - exp_run:
+        viol.append(('ran-job-that-must-be-skipped',
+                     f'executed {sorted(got_run)}, expected {sorted(exp_run)} (skipped must be {sorted(set(range(n)) - exp_run)})'))
+    if exp_run - got_run:
+        viol.append(('skipped-job-that-must-run',
+                     f'executed {sorted(got_run)}, expected {sorted(exp_run)}; wrongly skipped {sorted(exp_run - got_run)}'))
+    return viol, info
+
+
+def py_pipelines(tier):
+    """(n, types, edges) -- every labelled DAG shape in the bound (label = creation position, so the consumer is created
+    before AND after its producer), every assignment of job types, every edge into a python job realised as a python
+    argument in every shape."""
+    out = []
+
+    def edge_choices(types, u, v, forms_mode):
+        if types[v] == 'B':
+            return [('dep',), ('res',)] if forms_mode == 'all' else [('res',)]
+        forms = B_FORMS if types[u] == 'B' else P_FORMS
+        if forms_mode == 'one':
+            forms = forms[:1] if types[u] == 'B' else ('str',)
+        return [('py', f, sh) for f in forms for sh in PY_SHAPES]
+
+    # two jobs, one edge, either direction, every type assignment with a python job somewhere, all forms x all shapes
+    for u, v in ((0, 1), (1, 0)):
+        for types in itertools.product('BP', repeat=2):
+            if 'P' not in types:
+                continue
+            for r in edge_choices(types, u, v, 'all'):
+                out.append((2, types, ((u, v, r),)))
+    # three jobs, two edges (chain, fan-in = several resources mixed in one call, fan-out); thorough: + triangles, all forms
+    pairs = _pairs(3)
+    for es in itertools.combinations(pairs, 2) if tier == 'quick' else \
+            itertools.chain(itertools.combinations(pairs, 2), itertools.combinations(pairs, 3)):
+        if topo_order(3, [(u, v, 'dep') for u, v in es]) is None:
+            continue
+        for types in itertools.product('BP', repeat=3):
+            if not any(types[v] == 'P' for _, v in es):
+                continue
+            mode = 'one' if tier == 'quick' or len(es) == 3 else 'all'
+            for rs in itertools.product(*[edge_choices(types, u, v, mode) for u, v in es]):
+                if not any(r[0] == 'py' for r in rs):
+                    continue
+                out.append((3, types, tuple((u, v, r) for (u, v), r in zip(es, rs))))
+    return out
+
+
+def _work_py(item):
+    tier, shard, nshards = item
+    res = {'evals': 0, 'skips': 0, 'by_shape': {}, 'consumer_first': 0, 'viol': {}, 'samples': []}
+    for i, (n, types, edges) in enumerate(py_pipelines(tier)):
+        if i % nshards != shard:
+            continue
+        flags = [(False,) * n] + ([tuple(i == k for i in range(n)) for k in range(n)] if tier != 'quick' and n == 2 else [])
+        max_fail = n if (tier != 'quick' or n == 2) else 1
+        for ar in flags:
+            for r_ in range(max_fail + 1):
+                for fail in itertools.combinations(range(n), r_):
+                    viol, info = run_py_case(n, types, edges, ar, fail)
+                    res['evals'] += 1
+                    case = {'python': True, 'n': n, 'types': ''.join(types), 'edges': [[u, v, list(r)] for u, v, r in edges],
+                            'always_run': list(ar), 'fail': list(fail)}
+                    for sig, msg in viol:
+                        key = (n, len(edges), len(fail), repr(case))
+                        old = res['viol'].get(sig)
+                        if old is None or key < old[0]:
+                            res['viol'][sig] = (key, msg, case)
+                    if 'expected' in info and any(s == 'skipped' for s in info['expected'].values()):
+                        res['skips'] += 1
+                        if len(res['samples']) < 1 and n == 3:
+                            res['samples'].append(dict(case, executed=info['calls'], job_ids=info['ids']))
+                    if not fail and not any(ar):
+                        for u, v, r in edges:
+                            if r[0] == 'py':
+                                res['by_shape'][r[2]] = res['by_shape'].get(r[2], 0) + 1
+                                res['consumer_first'] += v < u
+    res['viol'] = sorted(res['viol'].items(), key=lambda kv: kv[1][0])
+    return ('py', shard), res
+
+
+# ----------------------------------------------------------------------------------------------
 # enumeration
 # ----------------------------------------------------------------------------------------------
 
@@ -579,6 +782,8 @@ def _work(item):
 def _dispatch(item):
     if item[0] == 'H':
         return _work_hist(item[1:])
+    if item[0] == 'PY':
+        return _work_py(item[1:])
     return _work(item)
 
 
@@ -599,9 +804,13 @@ def check(tier, seed, procs):
         hitems = [('H', n, pre, tier, False) for n in (2, 3) for pre in itertools.product(KINDS, repeat=PREFIX_LEN[n])]
         if tier != 'quick':
             hitems += [('H', 4, pre, tier, True) for pre in itertools.product(KINDS[:2], repeat=PREFIX_LEN[4])]
-        allrows = par.pmap(_dispatch, par.rotate(items + hitems, seed), procs, chunksize=1)
+        npy = 32 if tier == 'quick' else 128
+        pitems = [('PY', tier, sh, npy) for sh in range(npy)]
+        allrows = par.pmap(_dispatch, par.rotate(items + hitems + pitems, seed), procs, chunksize=1)
     finally:
         shutil.rmtree(root, ignore_errors=True)
+    prows = sorted((r for r in allrows if r[0][0] == 'py'), key=lambda r: r[0][1])
+    allrows = [r for r in allrows if r[0][0] != 'py']
     rows = [r for r in allrows if r[0][0] != 'hist']
     hrows = sorted((r for r in allrows if r[0][0] == 'hist'), key=lambda r: (r[0][1], tuple(KINDS.index(k) for k in r[0][2])))
     rows.sort(key=lambda r: (r[0][0], tuple(KINDS.index(k) for k in r[0][1])))
@@ -623,16 +832,28 @@ def check(tier, seed, procs):
                 hbest[sig] = (key, msg, case)
     violations += [{'signature': sig, 'message': f'{msg}; history={case}', 'replay': case}
                    for sig, (key, msg, case) in sorted(hbest.items(), key=lambda kv: kv[1][0])]
+    ptot = {k: sum(r[1][k] for r in prows) for k in ('evals', 'skips', 'consumer_first')}
+    by_shape = {sh: sum(r[1]['by_shape'].get(sh, 0) for r in prows) for sh in PY_SHAPES}
+    pbest = {}
+    for _, r in prows:
+        for sig, (key, msg, case) in r['viol']:
+            if sig not in pbest or key < pbest[sig][0]:
+                pbest[sig] = (key, msg, case)
+    for sig, (key, msg, case) in sorted(pbest.items(), key=lambda kv: kv[1][0]):
+        if not any(v['signature'] == sig for v in violations):
+            violations.append({'signature': sig, 'message': f'{msg}; python-wiring case={case}', 'replay': case})
     samples = [s for _, r in rows for s in r['samples']]
-    samples = samples[:: max(1, len(samples) // 3)][:3]
+    samples = samples[:: max(1, len(samples) // 2)][:2]
+    ps_ = [s for _, r in prows for s in r['samples']]
+    samples += ps_[:: max(1, len(ps_) // 2)][:2]
     hs = [s for _, r in hrows for s in r['samples']]
     samples += hs[:: max(1, len(hs) // 2)][:2]
     cov = {
-        'evaluations': tot['evals'] + htot['hist'],
-        'distinct_nontrivial': tot['n_cyc'] + tot['skips'] + htot['cyc2'] + htot['skip2'],
+        'evaluations': tot['evals'] + htot['hist'] + ptot['evals'],
+        'distinct_nontrivial': tot['n_cyc'] + tot['skips'] + htot['cyc2'] + htot['skip2'] + ptot['skips'],
         'rule': 'distinct cyclic pipelines (must be rejected) + distinct (acyclic pipeline, always_run vector, failing '
                 'set) cases in which the reference model skips at least one job + distinct two-run histories whose second '
-                'run is cyclic or skips at least one job',
+                'run is cyclic or skips at least one job + distinct python-wiring cases that skip at least one job',
         'samples': samples,
         'exhaustive': True,
         'bounds': f'all labelled digraphs on 1..{ns[-1]} jobs (each ordered pair: none | depends_on | resource read; '
@@ -645,7 +866,16 @@ def check(tier, seed, procs):
                   'the same Batch from {new job in front of x, new job after x / independent, new depends_on'
                   + ('/resource' if tier != 'quick' else '') + ' edge between any two existing jobs incl. cycle-closing and '
                   'earlier-on-later} and every pair {new job, new edge}' + (' and (2..3 jobs) every pair of new edges' if tier != 'quick' else '')
-                  + '; run() again; the second run is judged',
+                  + '; run() again; the second run is judged.  Python wirings: 2 jobs / one edge in either creation order, every '
+                  'type assignment, every form (bash: file, group member, whole group; python: PythonResult, as_str, as_json, '
+                  'as_repr) x every argument shape ' + str(list(PY_SHAPES)) + '; 3 jobs: every DAG with 2 edges'
+                  + (' (all forms) and every triangle (one form)' if tier != 'quick' else ' (one form per producer type)')
+                  + ', all type assignments, every shape per python-argument edge (fan-in = several resources in one call); failing '
+                  'sets: ' + ('all subsets' if tier != 'quick' else 'all subsets for 2 jobs, none + each single job for 3 jobs'),
+        'python_wiring_cases': ptot['evals'],
+        'python_wiring_cases_with_a_skipped_job': ptot['skips'],
+        'python_argument_edges_by_shape': by_shape,
+        'python_argument_edges_with_consumer_created_before_producer': ptot['consumer_first'],
         'two_run_histories': htot['hist'],
         'histories_whose_second_run_is_cyclic': htot['cyc2'],
         'histories_whose_second_run_executes_jobs': htot['ran2'],
@@ -670,6 +900,8 @@ def check(tier, seed, procs):
     for k in ('cyc2', 'ran2', 'skip2', 'fail1', 'ok1'):
         if htot[k] == 0:
             vac = f'history counter {k} is zero'
+    if ptot['skips'] == 0 or ptot['consumer_first'] == 0 or min(by_shape.values()) == 0:
+        vac = f'python-wiring counters: {ptot} {by_shape}'
     return {
         'coverage': cov,
         'violations': violations,
@@ -681,8 +913,9 @@ def check(tier, seed, procs):
             'Job.__hash__ (identity based, i.e. arbitrary, in the repo) is pinned to an enumerated rank so that the '
             'iteration order of Set[Job] dependency sets is owned and enumerated',
             'secret_alnum_string in hailtop.batch.batch is replaced by a deterministic generator of distinct tokens',
-            'resource-induced dependencies are bash-job reads of another job\'s declared output file; python jobs and '
-            'resource groups are exercised by C18',
+            'python jobs run on the real LocalBackend too: function/argument files are really written (dill -> pickle shim) '
+            'under the /dev/shm scratch directory; a python job is recognised in its script by a marker passed as its first '
+            'positional argument (it appears in the USER CODE comment)',
             'a failing command is modelled as check_call raising CalledProcessError (the only failure LocalBackend detects)',
             'two-run histories: the second run is judged per run -- candidates are the jobs not executed by the first run '
             '(skipped ones and new ones); a job is skipped iff not always_run and a parent failed or was skipped IN THAT RUN; '
@@ -701,8 +934,11 @@ def replay(obj):
     os.makedirs(root, exist_ok=True)
     _set_root(root)
     try:
-        edges = tuple((u, v, k) for u, v, k in obj['edges'])
-        if obj.get('history'):
+        edges = tuple(tuple(e) for e in obj['edges'])
+        if obj.get('python'):
+            pe = tuple((u, v, tuple(r)) for u, v, r in obj['edges'])
+            viol, info = run_py_case(obj['n'], tuple(obj['types']), pe, tuple(obj['always_run']), tuple(obj['fail']))
+        elif obj.get('history'):
             muts = tuple(tuple(m) for m in obj['mutations'])
             viol, info = run_history(obj['n'], edges, tuple(obj['always_run']), tuple(obj['fail']), muts)
         else:
